@@ -343,6 +343,13 @@ Definition toml_basic_chars : str -> Prop := str_chars toml_plain toml_esc.
 Definition python_plain (c : N) : bool := negb ((c =? 0) || (c =? 10) || (c =? 13)).
 Definition python_chars : str -> Prop := str_chars python_plain toml_esc.
 
+(* YAML 1.2 double-quoted scalar on one line: nb-double-char = c-ns-esc-char | ( nb-json - backslash - quote ),
+   nb-json = x9 | x20-x10FFFF; the seven escapes are c-ns-esc-chars with the same meaning, as is \u + 4 hex.
+   (5.1: processors must accept every non-C0 character inside quoted scalars; emitters *should* escape
+   the non-printable ones — see the open finding on U+FFFE/U+FFFF.) *)
+Definition yaml_dq_plain (c : N) : bool := (c =? 9) || (32 <=? c).
+Definition yaml_dq_chars : str -> Prop := str_chars yaml_dq_plain toml_esc.
+
 (* a quoted literal: quote, body, quote *)
 Definition quoted (body_ok : str -> Prop) (t : str) : Prop :=
   exists body, t = 34 :: body ++ [34] /\ body_ok body.
